@@ -30,8 +30,11 @@
      mcp      the knit indices' "missing compression parents" memory of THIS
               repository object (environment: bzrformats _KnitGraphIndex): a key is
               added when a delta whose basis is absent is inserted, removed when
-              the key itself is inserted, never otherwise touched (not at
-              abort/suspend/commit, not rebuilt at resume); a fresh object has [].
+              the key itself is inserted, and at resume (PackRepository._resume_write_group
+              calls scan_unvalidated_index on the revision, inventory, text and signature
+              index of every resumed pack) the compression parents of the resumed records
+              that are in no index are added; never otherwise touched (not cleared at
+              abort/suspend/commit); a fresh object has [].
      newrevs  revisions._index.key_dependencies new keys (cleared by
               clear_key_dependencies, refilled by scan_unvalidated_index at resume)
      resident names this object registered in _packs_by_name when it resumed them;
@@ -105,6 +108,14 @@ Section Machine.
                  | Some p => if mem p (view s) || mem p (mcp s) then [] else [p]
                  | None => [] end in
     remove k (mcp s ++ add).
+
+  (* ---- environment: scan_unvalidated_index of the resumed packs: external compression
+     references that are in no index ([v] = everything the writer sees after the resume) ---- *)
+  Definition missing_comp (v : list N) (items : list N) : list N :=
+    if is_gc then [] else
+    fold_left (fun acc k => match comp_of C k with
+                            | Some c => if mem c v || mem c acc then acc else acc ++ [c]
+                            | None => acc end) items [].
 
   (* ---- GCRepositoryPackCollection._check_new_inventories; true = no problems ---- *)
   Definition dedup_add (acc : list N) (k : N) := if mem k acc then acc else acc ++ [k].
@@ -180,7 +191,8 @@ Section Machine.
         | Some _ => (s, RErr EBzrError)
         | None =>
             match resume_toks (upload s) (resident s) [] ts with
-            | RsOk r => (St (listed s) (upload s) (Some (WG [] r)) (mcp s)
+            | RsOk r => (St (listed s) (upload s) (Some (WG [] r))
+                            (mcp s ++ missing_comp (visible s ++ List.concat r) (List.concat r))
                             (revs_of (List.concat r)) (resident s ++ r) false, ROk)
             | RsUnresumable r =>
                 (St (listed s) (nremove_all r (upload s)) None (mcp s) [] (resident s ++ r) false,
